@@ -15,6 +15,8 @@ PkSym_def == [A |-> 1, B |-> 2, D |-> 3]
 IdSym_def == [e1 |-> 3, e2 |-> 5, e3 |-> 2, e4 |-> 4, e5 |-> 1, e6 |-> 300, zz |-> 6]
 Chars_def == [t |-> <<116>>, p |-> <<112>>, a |-> <<97>>, ab |-> <<97, 98>>, A |-> <<65>>]
 MaxLimit_def == 4
+SeekRepaired == 100000
+SeekAsFound == 255
 
 AllIds == {"e1", "e2", "e3", "e4", "e5", "e6"}
 Stores_full == SUBSET AllIds
@@ -28,9 +30,9 @@ Filters_def == [ids : O({{"e1"}, {"e1", "e6", "zz"}}),
                 since : O({2}), until : O({2, 3}), limit : O({0, 1})]
 
 VARIABLES store, flt, ks, pc, stage, allowed, pos, mi, ys, ordered, ans, path
-CONSTANT StoresC
+CONSTANTS StoresC, SeekTopC, RangeC
 INSTANCE KvScan WITH Universe <- Universe_def, OneCharNames <- OneCharNames_def, PkSym <- PkSym_def, IdSym <- IdSym_def,
-                     Chars <- Chars_def, MaxLimit <- MaxLimit_def, Stores <- StoresC, Filters <- Filters_def
+                     Chars <- Chars_def, MaxLimit <- MaxLimit_def, Stores <- StoresC, Filters <- Filters_def, SeekTop <- SeekTopC, RangeInclusive <- RangeC
 \* path is a history variable: two runs that differ only in it are the same run
 View == <<store, flt, pc, stage, allowed, pos, mi, ys, ordered, ans>>
 =============================================================================
